@@ -191,6 +191,15 @@ class Ctx:
 
 def _worker(prop_id, shard, tier, seed, deadline):
     try:
+        # a runaway allocation (Z3 tactics can take tens of GB on some terms) must surface as MemoryError / a Z3 "out of
+        # memory" exception inside the case, not as the kernel killing arbitrary processes of the machine
+        try:
+            import resource
+
+            lim = int(os.environ.get("VERIF_RLIMIT_AS_GB", "12")) << 30
+            resource.setrlimit(resource.RLIMIT_AS, (lim, lim))
+        except (ValueError, OSError, ImportError):
+            pass
         env.setup_paths()
         env.import_claripy()
         mod = load_module(prop_id)
